@@ -227,17 +227,21 @@ def props_check(pid, extra_files=()):
     make(targets)
     work = workdir(pid)
     (work / "recheck").mkdir(exist_ok=True)
+    # re-run coqc on the property file and on every companion statement file (output to scratch) to capture
+    # Print Assumptions; the files are independent of each other, so they are re-checked concurrently
+    todo = [rel] + [f for f in extra_files if "/Props/" in f]
+
+    def recheck(f):
+        c = ["coqc"] + COQ_FLAGS + ["-o", str(work / "recheck" / (Path(f).stem + ".vo")), str(COQ / f)]
+        return f, sh(c, 900)
+    with concurrent.futures.ThreadPoolExecutor(max_workers=NCPU) as ex:
+        results = list(ex.map(recheck, todo))
+    out = ""
+    for f, (rc_f, out_f) in results:
+        if rc_f != 0:
+            raise BuildError("coqc failed on %s" % f, out_f)
+        out += ("\n" if out else "") + out_f
     cmd = ["coqc"] + COQ_FLAGS + ["-o", str(work / "recheck" / ("%s.vo" % pid)), str(src)]
-    rc, out = sh(cmd, 900)
-    if rc != 0:
-        raise BuildError("coqc failed on %s" % rel, out)
-    for f in extra_files:
-        if "/Props/" in f:
-            cmd2 = ["coqc"] + COQ_FLAGS + ["-o", str(work / "recheck" / (Path(f).stem + ".vo")), str(COQ / f)]
-            rc2, out2 = sh(cmd2, 900)
-            if rc2 != 0:
-                raise BuildError("coqc failed on %s" % f, out2)
-            out += "\n" + out2
     txt = src.read_text()
     theorems = re.findall(r"^\s*(?:Theorem|Corollary|Lemma|Example)\s+(\w+)", txt, flags=re.M)
     for f in extra_files:
